@@ -10,11 +10,15 @@ import (
 	"encoding/xml"
 	"fmt"
 	"io"
+	"math"
 	"math/big"
+	"math/bits"
 	"regexp"
 	"sort"
 	"strconv"
 	"strings"
+	"unicode"
+	"unicode/utf8"
 )
 
 // ---------- instants ----------
@@ -100,10 +104,21 @@ const (
 	OffMs                     // N[.N]ms
 	OffF                      // Nf (needs a frame rate)
 	OffT                      // Nt (needs a tick rate)
+	OffFFrac                  // N.Nf: a fractional frame count (1-3 fraction digits; the grammar is time-count fraction? metric)
+	OffTFrac                  // N.Nt: a fractional tick count
 	nSyntax
 )
 
-var syntaxNames = [...]string{"hh:mm:ss.fff", "hh:mm:ss.ff", "hh:mm:ss.f", "hh:mm:ss", "hh:mm:ss:ff", "h", "m", "s", "ms", "f", "t"}
+var syntaxNames = [...]string{"hh:mm:ss.fff", "hh:mm:ss.ff", "hh:mm:ss.f", "hh:mm:ss", "hh:mm:ss:ff", "h", "m", "s", "ms", "f", "t", "f-fraction", "t-fraction"}
+
+// Lexical variants of one syntax (the same instant, the same form, other digits).
+const (
+	LexCanon     = iota // shortest form: two-digit fields, no superfluous zeros
+	LexLeadZero         // one more leading zero: hours of a clock time ("001:02:03"), the count of an offset time ("010s", "01.5s")
+	LexTrailZero        // clock time with frames: one more leading zero in the frames field ("…:005"); offset time: one more fraction digit ("1.50s", "10.0s")
+	LexLongFrac         // offset time: fraction padded to nine digits ("1.500000000s")
+	nLex
+)
 
 func (s Syntax) String() string {
 	if s >= 0 && int(s) < len(syntaxNames) {
@@ -112,21 +127,69 @@ func (s Syntax) String() string {
 	return "syntax?"
 }
 
-// quot returns (num*k)/m when m divides num*k, without overflowing on the product.
+// quot returns (num*k)/m when m divides num*k and the quotient fits an int64 (num >= 0, k > 0, m > 0).
 func quot(num, k, m int64) (int64, bool) {
 	g := gcd(m, k)
-	m2 := m / g
+	m2, k2 := m/g, k/g // m | num*k  <=>  m2 | num*k2  <=>  m2 | num (m2 and k2 are coprime)
 	if num%m2 != 0 {
 		return 0, false
 	}
-	return (num / m2) * (k / g), true
+	hi, lo := bits.Mul64(uint64(num/m2), uint64(k2))
+	if hi != 0 || lo > math.MaxInt64 {
+		return 0, false
+	}
+	return int64(lo), true
 }
 
-var pow10 = [...]int64{1, 10, 100, 1000}
+var pow10 = [...]int64{1, 10, 100, 1000, 10000, 100000, 1000000, 10000000, 100000000, 1000000000}
 
-// Format writes the instant in the given syntax; ok is false when the syntax cannot express the
-// instant exactly (or needs a rate the document does not have).
+// offset writes count/10^d with the lexical variant applied.
+func offset(v int64, d int, suffix string, lex int) string {
+	ip, fp := strconv.FormatInt(v/pow10[d], 10), ""
+	if d > 0 {
+		fp = fmt.Sprintf("%0*d", d, v%pow10[d])
+	}
+	switch lex {
+	case LexLeadZero:
+		ip = "0" + ip
+	case LexTrailZero:
+		fp += "0"
+	case LexLongFrac:
+		for len(fp) < 9 {
+			fp += "0"
+		}
+	}
+	if fp != "" {
+		return ip + "." + fp + suffix
+	}
+	return ip + suffix
+}
+
+// Format writes the instant in the given syntax, shortest lexical form; ok is false when the syntax
+// cannot express the instant exactly (or needs a rate the document does not have).
 func Format(i Inst, syn Syntax, fr, tr int) (string, bool) {
+	return FormatLex(i, syn, LexCanon, fr, tr)
+}
+
+var (
+	lexClock  = []int{LexCanon, LexLeadZero}
+	lexFrames = []int{LexCanon, LexLeadZero, LexTrailZero}
+	lexOffset = []int{LexCanon, LexLeadZero, LexTrailZero, LexLongFrac}
+)
+
+// LexesOf lists the lexical variants a syntax has (LexCanon first).
+func LexesOf(syn Syntax) []int {
+	switch syn {
+	case Clock3, Clock2, Clock1, Clock0:
+		return lexClock
+	case ClockFrames:
+		return lexFrames
+	}
+	return lexOffset
+}
+
+// FormatLex is Format with a lexical variant (a variant the syntax does not have is written as LexCanon).
+func FormatLex(i Inst, syn Syntax, lex int, fr, tr int) (string, bool) {
 	const sec = 1000000000
 	switch syn {
 	case Clock3, Clock2, Clock1, Clock0, ClockFrames:
@@ -134,6 +197,9 @@ func Format(i Inst, syn Syntax, fr, tr int) (string, bool) {
 		whole := i.Num / m // whole seconds
 		rem := i.Num % m   // fraction of a second = rem/m
 		hms := fmt.Sprintf("%02d:%02d:%02d", whole/3600, whole/60%60, whole%60)
+		if lex == LexLeadZero {
+			hms = "0" + hms
+		}
 		switch syn {
 		case Clock0:
 			if rem != 0 {
@@ -148,6 +214,9 @@ func Format(i Inst, syn Syntax, fr, tr int) (string, bool) {
 			if !ok {
 				return "", false
 			}
+			if lex == LexTrailZero {
+				return fmt.Sprintf("%s:0%02d", hms, f), true
+			}
 			return fmt.Sprintf("%s:%02d", hms, f), true
 		}
 		digits := 3 - int(syn-Clock3)
@@ -157,38 +226,43 @@ func Format(i Inst, syn Syntax, fr, tr int) (string, bool) {
 		}
 		return fmt.Sprintf("%s.%0*d", hms, digits, f), true
 	case OffH, OffM, OffS, OffMs:
-		unit := map[Syntax]int64{OffH: 3600 * sec, OffM: 60 * sec, OffS: sec, OffMs: 1000000}[syn]
-		suffix := map[Syntax]string{OffH: "h", OffM: "m", OffS: "s", OffMs: "ms"}[syn]
+		unit, suffix := int64(sec), "s"
+		switch syn {
+		case OffH:
+			unit, suffix = 3600*sec, "h"
+		case OffM:
+			unit, suffix = 60*sec, "m"
+		case OffMs:
+			unit, suffix = 1000000, "ms"
+		}
 		m := i.Den * unit
-		for d := 0; d <= 3; d++ {
+		for d := 0; d <= 9; d++ { // the shortest fraction that is exact (offset times have no digit limit)
 			v, ok := quot(i.Num, pow10[d], m)
 			if !ok {
 				continue
 			}
-			if d == 0 {
-				return fmt.Sprintf("%d%s", v, suffix), true
-			}
-			return fmt.Sprintf("%d.%0*d%s", v/pow10[d], d, v%pow10[d], suffix), true
+			return offset(v, d, suffix, lex), true
 		}
 		return "", false
-	case OffF:
-		if fr <= 0 {
+	case OffF, OffT, OffFFrac, OffTFrac:
+		rate, suffix := fr, "f"
+		if syn == OffT || syn == OffTFrac {
+			rate, suffix = tr, "t"
+		}
+		if rate <= 0 {
 			return "", false
 		}
-		v, ok := quot(i.Num, int64(fr), i.Den*sec)
-		if !ok {
-			return "", false
+		for d := 0; d <= 3; d++ {
+			v, ok := quot(i.Num, int64(rate)*pow10[d], i.Den*sec)
+			if !ok {
+				continue
+			}
+			if (d == 0) != (syn == OffF || syn == OffT) {
+				return "", false // whole counts are OffF/OffT, fractional ones OffFFrac/OffTFrac
+			}
+			return offset(v, d, suffix, lex), true
 		}
-		return fmt.Sprintf("%df", v), true
-	case OffT:
-		if tr <= 0 {
-			return "", false
-		}
-		v, ok := quot(i.Num, int64(tr), i.Den*sec)
-		if !ok {
-			return "", false
-		}
-		return fmt.Sprintf("%dt", v), true
+		return "", false
 	}
 	return "", false
 }
@@ -364,9 +438,33 @@ func CanonAttrs(a []Attr) string {
 	sort.Slice(s, func(i, j int) bool { return s[i].Name < s[j].Name })
 	var b strings.Builder
 	for _, x := range s {
-		fmt.Fprintf(&b, "%s=%q;", x.Name, x.Value)
+		v := x.Value
+		if x.Name == "zIndex" {
+			v = canonInteger(v) // tts:zIndex is an <integer>: "+5", "005" and "5" are one value
+		}
+		fmt.Fprintf(&b, "%s=%q;", x.Name, v)
 	}
 	return b.String()
+}
+
+// canonInteger renders a TTML <integer> (sign? digit+) canonically; anything else is returned unchanged.
+func canonInteger(v string) string {
+	t, neg := v, false
+	if strings.HasPrefix(t, "+") || strings.HasPrefix(t, "-") {
+		neg = t[0] == '-'
+		t = t[1:]
+	}
+	if t == "" || strings.Trim(t, "0123456789") != "" {
+		return v
+	}
+	t = strings.TrimLeft(t, "0")
+	if t == "" {
+		return "0"
+	}
+	if neg {
+		return "-" + t
+	}
+	return t
 }
 
 // CanonLine flattens a line's runs to styled characters and renders them canonically, so that a
@@ -407,6 +505,7 @@ func LangDen(tag string) string {
 	if i := strings.IndexByte(p, '-'); i >= 0 {
 		p = p[:i]
 	}
+	p = strings.ToLower(p) // language tags are case-insensitive (BCP 47 section 2.1.1)
 	if mappedLangs[p] {
 		return p
 	}
@@ -563,21 +662,28 @@ func Compare(want, got Den) []Diff {
 
 // Render holds every syntactic freedom the renderer has; the zero-ish DefaultRender is the baseline.
 type Render struct {
-	NS        int        `json:"ns"`        // 0 default namespace ns/ttml + tts:/ttm:/ttp:; 1 every element prefixed tt:, styling s:, metadata m:, parameter p:; 2 as 0 with the 2006/10 ttaf1 namespace URIs
-	Indent    int        `json:"indent"`    // 0 compact (no white space between elements); 1 two spaces; 2 four spaces; 3 tab; 4 newlines only
-	Inline    bool       `json:"inline"`    // in an indented document keep each paragraph's content on the <p> line
-	BrForm    int        `json:"brForm"`    // 0 <br/>; 1 <br></br>; 2 <br />
-	XMLDecl   bool       `json:"xmlDecl"`   // <?xml version="1.0" encoding="UTF-8"?> first
-	OpenClose bool       `json:"openClose"` // <style ...></style> instead of <style .../>
-	Divs      bool       `json:"divs"`      // one <div> per paragraph instead of one for all
-	PID       bool       `json:"pid"`       // xml:id on every <p>
-	TextEsc   int        `json:"textEsc"`   // 0 &amp; &lt; &gt;; 1 numeric character references; 2 CDATA section where the text allows
-	Apos      bool       `json:"apos"`      // attribute values in '...'
-	Begin     []Syntax   `json:"begin"`     // per cue
-	End       []Syntax   `json:"end"`       // per cue
-	Bare      [][][]bool `json:"bare"`      // per cue/line/run: character data directly in <p> instead of a <span> (only for runs without style and attributes)
-	BrPlace   [][]int    `json:"brPlace"`   // per cue, per line break: 0 own element between the lines' items; 1 inside the end of the preceding span; 2 inside the start of the following span; 3 preceding and following run share one span around the <br/>
-	OmitBegin int        `json:"omitBegin"` // 1+index of the cue whose begin attribute is left out (0 none) - outside the fidelity domain, used by the no-panic probe only
+	NS        int        `json:"ns"`                 // 0 default namespace ns/ttml + tts:/ttm:/ttp:; 1 every element prefixed tt:, styling s:, metadata m:, parameter p:; 2 as 0 with the 2006/10 ttaf1 namespace URIs; 3 default namespace, one-letter prefixes a: b: c: for styling/metadata/parameter and an unused foreign namespace declaration
+	Indent    int        `json:"indent"`             // 0 compact (no white space between elements); 1 two spaces; 2 four spaces; 3 tab; 4 newlines only
+	Inline    bool       `json:"inline"`             // in an indented document keep each paragraph's content on the <p> line
+	BrForm    int        `json:"brForm"`             // 0 <br/>; 1 <br></br>; 2 <br />; 3 <br xml:id="b"/> (an attribute on the break)
+	XMLDecl   bool       `json:"xmlDecl"`            // <?xml version="1.0" encoding="UTF-8"?> first
+	OpenClose bool       `json:"openClose"`          // <style ...></style> instead of <style .../>
+	Divs      bool       `json:"divs"`               // one <div> per paragraph instead of one for all
+	PID       bool       `json:"pid"`                // xml:id on every <p>
+	TextEsc   int        `json:"textEsc"`            // 0 &amp; &lt; &gt;; 1 numeric character references; 2 CDATA section where the text allows; 3 every character but letters, digits and XML white space as &#xH; 4 decimal references with leading zeros (&#0038;) and &quot; &apos; for quotes; 5 first character in a CDATA section, "]]>" split over two sections, rest as 0
+	Apos      bool       `json:"apos"`               // attribute values in '...'
+	Begin     []Syntax   `json:"begin"`              // per cue
+	End       []Syntax   `json:"end"`                // per cue
+	BeginLex  []int      `json:"beginLex,omitempty"` // per cue: lexical variant of the begin expression (Lex* constants; missing = LexCanon)
+	EndLex    []int      `json:"endLex,omitempty"`
+	DeclForm  int        `json:"declForm,omitempty"`  // with XMLDecl: 0 <?xml version="1.0" encoding="UTF-8"?>; 1 encoding="utf-8" standalone="yes"; 2 version only, single quotes; 3 byte order mark + 0; without XMLDecl: 3 = byte order mark only
+	AttrOrder int        `json:"attrOrder,omitempty"` // 0 id, begin, end, region, style, tts:*; 1 the reverse
+	Comments  bool       `json:"comments,omitempty"`  // XML comments before the root, in head, between paragraphs and between the items of a paragraph
+	Decoy     int        `json:"decoy,omitempty"`     // attributes and elements without a denotation: 1 xml:space="preserve" on tt, ttm:desc before ttm:title; 2 xml:space="default" and ttm:role on every p and span, ttp:timeBase on tt, ttm:desc after ttm:copyright
+	EmptyMeta int        `json:"emptyMeta,omitempty"` // how absent title/copyright/styles/regions are written: 0 left out; 1 empty containers (<metadata/>, <styling/>, <layout/>); 2 empty <ttm:title></ttm:title> / <ttm:copyright/> elements too
+	Bare      [][][]bool `json:"bare"`                // per cue/line/run: character data directly in <p> instead of a <span> (only for runs without style and attributes)
+	BrPlace   [][]int    `json:"brPlace"`             // per cue, per line break: 0 own element between the lines' items; 1 inside the end of the preceding span; 2 inside the start of the following span; 3 preceding and following run share one span around the <br/>
+	OmitBegin int        `json:"omitBegin"`           // 1+index of the cue whose begin attribute is left out (0 none) - outside the fidelity domain, used by the no-panic probe only
 	OmitEnd   int        `json:"omitEnd"`
 }
 
@@ -611,11 +717,11 @@ var nsOld = nsSet{"http://www.w3.org/2006/10/ttaf1", "http://www.w3.org/2006/10/
 func isXMLSpace(r rune) bool { return r == ' ' || r == '\t' || r == '\n' || r == '\r' }
 
 // BareOK reports whether a run may be rendered as bare character data at that position under the
-// rendering: no style, no attributes, some non-white-space text, and no outer XML white space
+// rendering: no style, no attributes, some text that is not XML white space, and no outer XML white space
 // (space, tab, CR, LF) where the format cannot tell it from indentation (own-line layout; start of
 // the paragraph). Characters that are not XML white space (U+00A0, U+3000 ...) are text everywhere.
 func BareOK(run Run, r Render, firstInP bool) bool {
-	if run.Style != "" || len(run.Attrs) > 0 || strings.TrimSpace(run.Text) == "" {
+	if run.Style != "" || len(run.Attrs) > 0 || strings.TrimFunc(run.Text, isXMLSpace) == "" {
 		return false
 	}
 	if strings.ContainsAny(run.Text, "\n\r") {
@@ -636,6 +742,7 @@ func StartsRawLine(r Render, firstInP bool) bool { return (r.Indent != 0 && !r.I
 
 type writer struct {
 	b              strings.Builder
+	held           []string // attributes of the open start tag (written by flushAttrs in the order the rendering asks for)
 	r              Render
 	indent         string
 	pretty         bool
@@ -652,44 +759,85 @@ func (w *writer) nl(depth int) {
 	}
 }
 
+// attr adds an attribute to the open start tag; flushAttrs writes them.
 func (w *writer) attr(name, val string) {
+	var b strings.Builder
 	q := `"`
 	if w.r.Apos {
 		q = "'"
 	}
-	w.b.WriteByte(' ')
-	w.b.WriteString(name)
-	w.b.WriteByte('=')
-	w.b.WriteString(q)
+	b.WriteByte(' ')
+	b.WriteString(name)
+	b.WriteByte('=')
+	b.WriteString(q)
 	for _, c := range val {
 		switch c {
 		case '&':
-			w.b.WriteString("&amp;")
+			b.WriteString("&amp;")
 		case '<':
-			w.b.WriteString("&lt;")
+			b.WriteString("&lt;")
 		case '"':
 			if w.r.Apos {
-				w.b.WriteRune(c)
+				b.WriteRune(c)
 			} else {
-				w.b.WriteString("&quot;")
+				b.WriteString("&quot;")
 			}
 		case '\'':
 			if w.r.Apos {
-				w.b.WriteString("&apos;")
+				b.WriteString("&apos;")
 			} else {
-				w.b.WriteRune(c)
+				b.WriteRune(c)
 			}
 		case '\t':
-			w.b.WriteString("&#9;")
+			b.WriteString("&#9;")
 		case '\n':
-			w.b.WriteString("&#10;")
+			b.WriteString("&#10;")
 		case '\r':
-			w.b.WriteString("&#13;")
+			b.WriteString("&#13;")
 		default:
-			w.b.WriteRune(c)
+			b.WriteRune(c)
 		}
 	}
-	w.b.WriteString(q)
+	b.WriteString(q)
+	w.held = append(w.held, b.String())
+}
+
+// flushAttrs writes the held attributes, the first keep of them always first and in order (namespace declarations).
+func (w *writer) flushAttrs(keep int) {
+	h := w.held
+	w.held = w.held[:0]
+	for i := 0; i < keep && i < len(h); i++ {
+		w.b.WriteString(h[i])
+	}
+	if keep > len(h) {
+		keep = len(h)
+	}
+	h = h[keep:]
+	if w.r.AttrOrder == 1 {
+		for i := len(h) - 1; i >= 0; i-- {
+			w.b.WriteString(h[i])
+		}
+		return
+	}
+	for _, a := range h {
+		w.b.WriteString(a)
+	}
+}
+
+func (w *writer) comment(depth int, c string) {
+	if !w.r.Comments {
+		return
+	}
+	w.nl(depth)
+	w.b.WriteString("<!--" + c + "-->")
+}
+
+// decoyAttrs adds the attributes without denotation of rendering Decoy=2 to a p or span.
+func (w *writer) decoyAttrs() {
+	if w.r.Decoy == 2 {
+		w.attr("xml:space", "default")
+		w.attr(w.pm+"role", "dialog")
+	}
 }
 
 func (w *writer) styleAttrs(a []Attr) {
@@ -703,8 +851,27 @@ func (w *writer) text(t string) {
 		w.b.WriteString("<![CDATA[" + t + "]]>")
 		return
 	}
+	if w.r.TextEsc == 5 && cdataFirst(t) {
+		tok := TextTokens(t, 5)
+		if len(tok) != 2 || strings.Contains(t, "]]>") {
+			for _, s := range tok {
+				w.b.WriteString("<![CDATA[" + s + "]]>")
+			}
+			return
+		}
+		w.b.WriteString("<![CDATA[" + tok[0] + "]]>")
+		t = tok[1]
+	}
 	for _, c := range t {
 		switch {
+		case w.r.TextEsc == 3 && !isXMLSpace(c) && !unicode.IsLetter(c) && !unicode.IsDigit(c):
+			fmt.Fprintf(&w.b, "&#x%X;", c)
+		case w.r.TextEsc == 4 && c == '"':
+			w.b.WriteString("&quot;")
+		case w.r.TextEsc == 4 && c == '\'':
+			w.b.WriteString("&apos;")
+		case w.r.TextEsc == 4 && (c == '&' || c == '<' || c == '>' || c > 0x7e):
+			fmt.Fprintf(&w.b, "&#%04d;", c)
 		case c == '&' && w.r.TextEsc == 1:
 			w.b.WriteString("&#38;")
 		case c == '&':
@@ -725,12 +892,46 @@ func (w *writer) text(t string) {
 	}
 }
 
+// TextTokens lists the character-data tokens text is written as under an escaping form (a CDATA
+// section boundary ends a token): form 5 puts the first character into a CDATA section of its own - unless
+// it is XML white space or the text has one character - and cuts a text with "]]>" inside every "]]>".
+func TextTokens(t string, textEsc int) []string {
+	if textEsc != 5 || !cdataFirst(t) {
+		return []string{t}
+	}
+	if strings.Contains(t, "]]>") {
+		var out []string
+		for {
+			k := strings.Index(t, "]]>")
+			if k < 0 {
+				break
+			}
+			out = append(out, t[:k+2])
+			t = t[k+2:]
+		}
+		return append(out, t)
+	}
+	_, n := utf8.DecodeRuneInString(t)
+	if strings.TrimFunc(t[n:], isXMLSpace) == "" {
+		return []string{t} // one section for the whole text: no white-space-only token
+	}
+	return []string{t[:n], t[n:]}
+}
+
+// cdataFirst: escaping form 5 applies (some text, no CR, not led by XML white space).
+func cdataFirst(t string) bool {
+	r, _ := utf8.DecodeRuneInString(t)
+	return t != "" && !strings.ContainsAny(t, "\r") && !isXMLSpace(r)
+}
+
 func (w *writer) br() {
 	switch w.r.BrForm {
 	case 1:
 		w.b.WriteString("<" + w.pe + "br></" + w.pe + "br>")
 	case 2:
 		w.b.WriteString("<" + w.pe + "br />")
+	case 3:
+		w.b.WriteString("<" + w.pe + "br xml:id=\"b\"/>")
 	default:
 		w.b.WriteString("<" + w.pe + "br/>")
 	}
@@ -739,6 +940,7 @@ func (w *writer) br() {
 func (w *writer) empty(name string, attrs func()) {
 	w.b.WriteString("<" + w.pe + name)
 	attrs()
+	w.flushAttrs(0)
 	if w.r.OpenClose {
 		w.b.WriteString("></" + w.pe + name + ">")
 	} else {
@@ -823,7 +1025,15 @@ func (w *writer) paragraph(c Cue, k int, depth int) {
 		}
 	}
 	ownLine := w.pretty && !w.r.Inline
+	nitem := 0
 	item := func() {
+		if nitem > 0 && w.r.Comments {
+			if ownLine {
+				w.nl(depth + 1)
+			}
+			w.b.WriteString("<!-- <br/> -->")
+		}
+		nitem++
 		if ownLine {
 			w.nl(depth + 1)
 		}
@@ -849,6 +1059,8 @@ func (w *writer) paragraph(c Cue, k int, depth int) {
 					w.attr("style", t.run.Style)
 				}
 				w.styleAttrs(t.run.Attrs)
+				w.decoyAttrs()
+				w.flushAttrs(0)
 				w.b.WriteString(">")
 				for j := 0; j < pre[i]; j++ {
 					w.br()
@@ -889,11 +1101,30 @@ func (d Doc) Bytes(r Render) []byte {
 		ns = nsOld
 	}
 	w.ps, w.pm, w.pp = "tts:", "ttm:", "ttp:"
-	if r.NS == 1 {
+	switch r.NS {
+	case 1:
 		w.pe, w.ps, w.pm, w.pp = "tt:", "s:", "m:", "p:"
+	case 3:
+		w.ps, w.pm, w.pp = "a:", "b:", "c:"
+	}
+	if r.DeclForm == 3 {
+		w.b.WriteString("\ufeff")
 	}
 	if r.XMLDecl {
-		w.b.WriteString(`<?xml version="1.0" encoding="UTF-8"?>`)
+		switch r.DeclForm {
+		case 1:
+			w.b.WriteString(`<?xml version="1.0" encoding="utf-8" standalone="yes"?>`)
+		case 2:
+			w.b.WriteString(`<?xml version='1.0'?>`)
+		default:
+			w.b.WriteString(`<?xml version="1.0" encoding="UTF-8"?>`)
+		}
+		if w.pretty {
+			w.b.WriteByte('\n')
+		}
+	}
+	if r.Comments {
+		w.b.WriteString("<!-- <tt begin=\"0s\"> -->")
 		if w.pretty {
 			w.b.WriteByte('\n')
 		}
@@ -907,8 +1138,19 @@ func (d Doc) Bytes(r Render) []byte {
 	w.attr("xmlns:"+strings.TrimSuffix(w.ps, ":"), ns.tts)
 	w.attr("xmlns:"+strings.TrimSuffix(w.pm, ":"), ns.ttm)
 	w.attr("xmlns:"+strings.TrimSuffix(w.pp, ":"), ns.ttp)
+	nsDecls := 4
+	if r.NS == 3 {
+		w.attr("xmlns:smpte", "http://www.smpte-ra.org/schemas/2052-1/2010/smpte-tt")
+		nsDecls++
+	}
 	if d.Lang != "" {
 		w.attr("xml:lang", d.Lang)
+	}
+	if r.Decoy == 1 {
+		w.attr("xml:space", "preserve")
+	}
+	if r.Decoy == 2 {
+		w.attr(w.pp+"timeBase", "media")
 	}
 	if d.FrameRate > 0 {
 		w.attr(w.pp+"frameRate", strconv.Itoa(d.FrameRate))
@@ -916,14 +1158,20 @@ func (d Doc) Bytes(r Render) []byte {
 	if d.TickRate > 0 {
 		w.attr(w.pp+"tickRate", strconv.Itoa(d.TickRate))
 	}
+	w.flushAttrs(nsDecls)
 	w.b.WriteString(">")
-	if d.Title != "" || d.Copyright != "" || len(d.Styles) > 0 || len(d.Regions) > 0 {
+	if d.Title != "" || d.Copyright != "" || len(d.Styles) > 0 || len(d.Regions) > 0 || r.EmptyMeta > 0 {
 		w.nl(1)
 		w.b.WriteString("<" + w.pe + "head>")
-		if d.Title != "" || d.Copyright != "" {
+		w.comment(2, " <metadata><title>no</title></metadata> ")
+		if d.Title != "" || d.Copyright != "" || r.EmptyMeta > 0 {
 			w.nl(2)
 			w.b.WriteString("<" + w.pe + "metadata>")
-			if d.Title != "" {
+			if r.Decoy == 1 {
+				w.nl(3)
+				w.b.WriteString("<" + w.pm + "desc>title</" + w.pm + "desc>")
+			}
+			if d.Title != "" || r.EmptyMeta == 2 {
 				w.nl(3)
 				w.b.WriteString("<" + w.pm + "title>")
 				w.text(d.Title)
@@ -934,9 +1182,24 @@ func (d Doc) Bytes(r Render) []byte {
 				w.b.WriteString("<" + w.pm + "copyright>")
 				w.text(d.Copyright)
 				w.b.WriteString("</" + w.pm + "copyright>")
+			} else if r.EmptyMeta == 2 {
+				w.nl(3)
+				w.b.WriteString("<" + w.pm + "copyright/>")
+			}
+			if r.Decoy == 2 {
+				w.nl(3)
+				w.b.WriteString("<" + w.pm + "desc>copyright</" + w.pm + "desc>")
 			}
 			w.nl(2)
 			w.b.WriteString("</" + w.pe + "metadata>")
+		}
+		if len(d.Styles) == 0 && r.EmptyMeta > 0 {
+			w.nl(2)
+			w.b.WriteString("<" + w.pe + "styling/>")
+		}
+		if len(d.Regions) == 0 && r.EmptyMeta > 0 {
+			w.nl(2)
+			w.b.WriteString("<" + w.pe + "layout></" + w.pe + "layout>")
 		}
 		if len(d.Styles) > 0 {
 			w.nl(2)
@@ -982,28 +1245,37 @@ func (d Doc) Bytes(r Render) []byte {
 			w.nl(2)
 			w.b.WriteString("<" + w.pe + "div>")
 		}
+		if k > 0 && !r.Divs {
+			w.comment(3, " <p begin=\"0s\" end=\"1s\">no</p> ")
+		}
 		w.nl(3)
 		w.b.WriteString("<" + w.pe + "p")
 		if r.PID {
 			w.attr("xml:id", "p"+strconv.Itoa(k+1))
 		}
 		if r.OmitBegin != k+1 {
-			syn := Clock3
+			syn, lex := Clock3, LexCanon
 			if k < len(r.Begin) {
 				syn = r.Begin[k]
 			}
-			s, ok := Format(c.Begin, syn, d.FrameRate, d.TickRate)
+			if k < len(r.BeginLex) {
+				lex = r.BeginLex[k]
+			}
+			s, ok := FormatLex(c.Begin, syn, lex, d.FrameRate, d.TickRate)
 			if !ok {
 				s = "UNEXPRESSIBLE(" + c.Begin.String() + " as " + syn.String() + ")"
 			}
 			w.attr("begin", s)
 		}
 		if r.OmitEnd != k+1 {
-			syn := Clock3
+			syn, lex := Clock3, LexCanon
 			if k < len(r.End) {
 				syn = r.End[k]
 			}
-			s, ok := Format(c.End, syn, d.FrameRate, d.TickRate)
+			if k < len(r.EndLex) {
+				lex = r.EndLex[k]
+			}
+			s, ok := FormatLex(c.End, syn, lex, d.FrameRate, d.TickRate)
 			if !ok {
 				s = "UNEXPRESSIBLE(" + c.End.String() + " as " + syn.String() + ")"
 			}
@@ -1016,6 +1288,8 @@ func (d Doc) Bytes(r Render) []byte {
 			w.attr("style", c.Style)
 		}
 		w.styleAttrs(c.Attrs)
+		w.decoyAttrs()
+		w.flushAttrs(0)
 		w.b.WriteString(">")
 		w.paragraph(c, k, 3)
 		w.b.WriteString("</" + w.pe + "p>")
